@@ -14,6 +14,7 @@ def families(tier):
     yield "every token sequence of length <= %d over the 27-token alphabet x style" % (4 if tier == "thorough" else 3), spaces.token_sequences(4 if tier == "thorough" else 3)
     yield "C10 core product (every %s case)" % ("5th" if tier == "quick" else "1st"), spaces.c10_core(5 if tier == "quick" else 1)
     yield "C10 layouts: every filler at every gap site x target x key-values x style", spaces.c10_layouts()
+    yield "file-start variants (BOM, BOM+CRLF, shebang, inner attribute) x bodies x eol x style", spaces.file_start_variants()
     yield "C13 structured ref states (default layout)", spaces.c13_default_layout(tier)
     yield "C14 directive placements", spaces.c14_short()
     yield "multi-insertion family (n x width x preceding character)", spaces.multi_insertion(big_counts=(1000, 5000) if tier == "thorough" else ())
@@ -51,6 +52,15 @@ def run(tier, v):
                         if tok.startswith(b"[") and _VALID.match(fr.orig[off - 1:off + 20] if off > 0 else b""):
                             v.violation("token-inserted-before-valid-reference", {"family": name, "before": fr.orig.decode("utf-8", "replace")[:800]},
                                         replay_files={"case.rs": fr.orig})
+                # generated statements come with the generator's ground truth: a statement that already carries a valid reference
+                # (message token or `ref = <uint>` key-value) receives nothing, so no more tokens than unreferenced statements
+                lab = fr.label
+                if isinstance(lab, tuple) and len(lab) == 3 and isinstance(lab[2], list):
+                    want = sum(1 for e in lab[2] if e[0] == "N" or (e[0] == "S" and e[2] is None))
+                    if len(strip) > want:
+                        v.violation("statement-that-needs-nothing-received-a-token", {"family": name, "before": fr.orig.decode("utf-8", "replace")[:800],
+                                                                                      "after": fr.after1.decode("utf-8", "replace")[:800], "model": repr(lab[2])[:300]},
+                                    replay_files={"case.rs": fr.orig})
                 if not fr.check_positions and strip:
                     v.violation("file-without-reported-missing-statement-was-modified", {"family": name, "before": fr.orig.decode("utf-8", "replace")[:800],
                                                                                         "after": fr.after1.decode("utf-8", "replace")[:800]},
